@@ -380,17 +380,22 @@ Theorem tree_gamma_agree b ls t : forall mem,
   = lift_u Gamma (gamma_calls (cfg_inS ls) (cfg_loads b ls) (flat_axioms t) mem).
 Proof.
   induction t as [axs subs IH] using mtree_ind'. intros mem. cbn [tree_gamma flat_axioms].
-  unfold gen_execute_gamma_phase. unfold bind at 1 2. cbn [assert_phase r_phase phase_eqb].
+  unfold gen_execute_gamma_phase.
+  match goal with |- context [bind (iterM ?f axs) ?k] => set (TAIL := bind (iterM f axs) k) end.
+  assert (HT : forall m, TAIL (mkrst m Gamma) = lift_u Gamma (gamma_calls (cfg_inS ls) (cfg_loads b ls) axs m)).
+  { intros m. pose proof (gamma_phase_agree b ls axs [] [] m) as T. unfold gen_execute_gamma_phase in T. fold TAIL in T.
+    unfold bind at 1 2 in T. cbn [assert_phase r_phase phase_eqb iterM ret] in T.
+    destruct (TAIL (mkrst m Gamma)) as [[[u c] s']|]; cbn in T; exact T. }
   assert (L : forall mem, iterM (fun v_submodule => v_submodule (stack_obj b ls) false) (map tree_gamma subs) (mkrst mem Gamma)
               = lift_u Gamma (gamma_calls (cfg_inS ls) (cfg_loads b ls) (flat_map flat_axioms subs) mem)).
   { clear mem. induction IH as [|s subs Hs _ IHs]; intros mem; cbn [map iterM flat_map]; [reflexivity|].
     unfold bind. rewrite Hs, gamma_calls_app.
     destruct (gamma_calls _ _ (flat_axioms s) mem) as [[c1 m1]|]; [|reflexivity]. cbn [lift_u]. rewrite IHs.
     destruct (gamma_calls _ _ (flat_map flat_axioms subs) m1) as [[c2 m2]|]; reflexivity. }
+  unfold bind at 1 2. cbn [assert_phase r_phase phase_eqb].
   rewrite L, gamma_calls_app.
   destruct (gamma_calls _ _ (flat_map flat_axioms subs) mem) as [[c1 m1]|]; [|reflexivity]. cbn [lift_u].
-  unfold bind at 1 2. rewrite gamma_axioms_agree.
-  destruct (gamma_calls _ _ axs m1) as [[c2 m2]|]; cbn; rewrite ?app_nil_r; reflexivity.
+  rewrite HT. destruct (gamma_calls _ _ axs m1) as [[c2 m2]|]; reflexivity.
 Qed.
 
 (** [execute_full]: the three phases in order, the phase switched in between *)
@@ -415,4 +420,120 @@ Proof.
   unfold bind at 1. cbn -[gen_execute_proofs_phase].
   rewrite (proofs_phase_agree b ls [] axs cls ts ths F).
   destruct (proof_calls _ _ _ axs ts mc) as [[cp mp]|]; cbn; rewrite ?app_nil_r, <- ?app_assoc; reflexivity.
+Qed.
+
+(** * The model's entry points restated on the translated source *)
+Definition gen_run_basic (axs:list pat) (t:pterm) : option pat :=
+  match gen_stack_calls BBasic [] axs t [] with Some (_, c, _) => Some c | None => None end.
+
+Definition gen_run (b:base) (ls:list layer) (axs:list pat) (t:pterm) (tbl:symtab) (s:sstate) : option pat :=
+  match gen_stack_calls b ls axs t (s_mem s) with
+  | None => None
+  | Some (cs, c, _) =>
+      match b with
+      | BBasic => Some c
+      | BStateful => match st_run cs s with Some _ => Some c | None => None end
+      | BCounting => match count_run cs s [] with Some _ => Some c | None => None end
+      | BSerializing => match ser_run cs tbl s with Some _ => Some c | None => None end
+      | BPretty => match pretty_run cs s with Some _ => Some c | None => None end
+      end
+  end.
+
+Definition gen_compile (ls:list layer) (axs:list pat) (t:pterm) (tbl:symtab) (s:sstate)
+  : option (symtab * sstate * list N * pat) :=
+  match gen_stack_calls BSerializing ls axs t (s_mem s) with
+  | None => None
+  | Some (cs, c, _) => match ser_run cs tbl s with
+                       | Some (tbl', s', bs) => Some (tbl', s', bs, c)
+                       | None => None end
+  end.
+
+Lemma gen_run_basic_eq axs t : gen_run_basic axs t = run_basic axs t.
+Proof. unfold gen_run_basic, run_basic. rewrite gen_stack_calls_agree. reflexivity. Qed.
+Lemma gen_run_eq b ls axs t tbl s : gen_run b ls axs t tbl s = run b ls axs t tbl s.
+Proof. unfold gen_run, run. rewrite gen_stack_calls_agree. reflexivity. Qed.
+Lemma gen_compile_eq ls axs t tbl s : gen_compile ls axs t tbl s = compile ls axs t tbl s.
+Proof. unfold gen_compile, compile. rewrite gen_stack_calls_agree. reflexivity. Qed.
+
+(** [ProofExp.serialize] with the phases of the translated [execute_*_phase] methods *)
+Fixpoint build_all (axs:list pat) (ts:list pterm) : option (list thunk) :=
+  match ts with
+  | [] => Some []
+  | t :: r => match build axs t, build_all axs r with
+              | Some th, Some ths => Some (th :: ths)
+              | _, _ => None end
+  end.
+Definition run_u (m:M unit) (mem:list term) (ph:phase) : option (list call * list term) :=
+  match m (mkrst mem ph) with Some (_, cs, s') => Some (cs, r_mem s') | None => None end.
+
+Definition gen_serialize_with (ls:list layer) (m:pmodule) : option (list N * list N * list N) :=
+  let it := stack_obj BSerializing ls in
+  match build_all (m_axioms m) (m_proofs m) with
+  | None => None
+  | Some ths =>
+    match run_u (gen_execute_gamma_phase [] (m_axioms m) (m_claims m) ths it false) [] Gamma with
+    | Some (cg, mg) =>
+      match ser_run cg [] (sinit m) with
+      | Some (t1, s1, bg) =>
+        match run_u (gen_execute_claims_phase [] (m_axioms m) (m_claims m) ths it false) mg Claim with
+        | Some (cc, mc) =>
+          match ser_run cc t1 (next_phase Claim s1) with
+          | Some (t2, s2, bc) =>
+            match run_u (gen_execute_proofs_phase [] (m_axioms m) (m_claims m) ths it) mc Proof with
+            | Some (cp, _) =>
+              match ser_run cp t2 (next_phase Proof s2) with
+              | Some (_, _, bp) => Some (bg, bc, bp)
+              | None => None end
+            | None => None end
+          | None => None end
+        | None => None end
+      | None => None end
+    | None => None end
+  end.
+Definition gen_serialize (memo:option (list pat)) (m:pmodule) : option (list N * list N * list N) :=
+  match memo with
+  | None => gen_serialize_with [] m
+  | Some ms => match count_module m with Some _ => gen_serialize_with [LMemo ms] m | None => None end
+  end.
+
+Lemma build_all_forall2 axs ts ths : build_all axs ts = Some ths -> Forall2 (fun t th => build axs t = Some th) ts ths.
+Proof.
+  revert ths. induction ts as [|t ts IH]; intros ths H; cbn in H.
+  - inversion H. constructor.
+  - destruct (build axs t) as [th|] eqn:B; [|discriminate]. destruct (build_all axs ts) as [r|]; [|discriminate].
+    inversion H; subst. constructor; [exact B | apply IH; reflexivity].
+Qed.
+
+Lemma build_all_none inS loads io axs ts : build_all axs ts = None -> forall mem, proof_calls inS loads io axs ts mem = None.
+Proof.
+  induction ts as [|t ts IH]; intros H mem; cbn in H; [discriminate|]. cbn [proof_calls].
+  destruct (build axs t) as [th|] eqn:B.
+  - destruct (build_all axs ts); [discriminate|].
+    destruct (tcalls inS loads io axs t mem) as [[[c1 c] m1]|]; [|reflexivity]. rewrite (IH eq_refl). reflexivity.
+  - pose proof (build_static axs t) as HS. rewrite B in HS. rewrite tcalls_unfold, HS. reflexivity.
+Qed.
+
+Lemma gen_serialize_with_eq ls m : cfg_instopt ls = false ->
+  gen_serialize_with ls m = serialize_with (cfg_inS ls) (cfg_loads BSerializing ls) m.
+Proof.
+  intros Hio. unfold gen_serialize_with, serialize_with, run_u.
+  destruct (build_all (m_axioms m) (m_proofs m)) as [ths|] eqn:BA.
+  - rewrite gamma_phase_agree. destruct (gamma_calls _ _ (m_axioms m) []) as [[cg mg]|]; [|reflexivity]. cbn [lift_u r_mem].
+    destruct (ser_run cg [] (sinit m)) as [[[t1 s1] bg]|]; [|reflexivity].
+    rewrite claims_phase_agree. destruct (claim_calls _ _ (rev (m_claims m)) mg) as [[cc mc]|]; [|reflexivity]. cbn [lift_u r_mem].
+    destruct (ser_run cc t1 _) as [[[t2 s2] bc]|]; [|reflexivity].
+    rewrite (proofs_phase_agree BSerializing ls [] (m_axioms m) (m_claims m) (m_proofs m) ths (build_all_forall2 _ _ _ BA)).
+    rewrite Hio. destruct (proof_calls _ _ false (m_axioms m) (m_proofs m) mc) as [[cp mp]|]; reflexivity.
+  - destruct (gamma_calls _ _ (m_axioms m) []) as [[cg mg]|]; [|reflexivity].
+    destruct (ser_run cg [] (sinit m)) as [[[t1 s1] bg]|]; [|reflexivity].
+    destruct (claim_calls _ _ (rev (m_claims m)) mg) as [[cc mc]|]; [|reflexivity].
+    destruct (ser_run cc t1 _) as [[[t2 s2] bc]|]; [|reflexivity].
+    rewrite (build_all_none _ _ false _ _ BA). reflexivity.
+Qed.
+
+Theorem gen_serialize_eq memo m : gen_serialize memo m = serialize memo m.
+Proof.
+  destruct memo as [ms|]; cbn [gen_serialize serialize].
+  - destruct (count_module m); [|reflexivity]. rewrite gen_serialize_with_eq by reflexivity. reflexivity.
+  - rewrite gen_serialize_with_eq by reflexivity. reflexivity.
 Qed.
